@@ -219,6 +219,10 @@ def c16_scenarios(tier):
     # invoked as -f <abs config> from an unrelated directory
     for n in ([2, 5, 24] if tier == "quick" else [2, 3, 5, 13, 24, 48]):
         out.append(("c16", {"n": n, "pos": "middle", "ncmd": 1, "foreign": True}, {}))
+    # further flags: --fail-on-undefined (everything is defined), the commands given as a sequence
+    for n in ([2, 5, 24] if tier == "quick" else [2, 3, 5, 13, 24, 48]):
+        out.append(("c16", {"n": n, "pos": "middle", "ncmd": 1, "flags": "fail-on-undefined"}, {}))
+        out.append(("c16", {"n": n, "pos": "middle", "ncmd": 2, "flags": "sequence"}, {}))
     # the group reached through -t ... --deps instead of change detection
     for n in ([2, 5, 24] if tier == "quick" else [2, 3, 5, 13, 24, 48]):
         for pos, named in (("middle", "last"), ("only", "all"), ("last", "all")):
@@ -288,6 +292,13 @@ def c16_task(desc):
         for c in cmds:
             modes[(group[i], c)] = None
     sn = sched.Scenario("group%d/%s/%dcmd" % (n, pos, ncmd), ts, modes, ["-c"] + cmds, cmds)
+    if desc.get("flags"):
+        # the same plan with further flags that must not change how a group is started
+        extra = {"fail-on-undefined": ["--fail-on-undefined"], "sequence": None}[desc["flags"]]
+        if extra is None:
+            sn = sched.Scenario(sn.name + "/sequence", ts, modes, ["-s", "all"], cmds, sequences={"all": cmds})
+        else:
+            sn = sched.Scenario(sn.name + "/" + desc["flags"], ts, modes, ["-c"] + cmds + extra, cmds, fail_on_undefined=True)
     if desc.get("select") == "deps":
         # the same plan reached through explicit targets and --deps (the last target of the plan, or all of them)
         named = [t["path"] for t in ts] if desc.get("named") == "all" else [ts[-1]["path"]] if pos in ("middle", "first") else [t["path"] for t in ts]
